@@ -7,15 +7,7 @@
     Cases arrive in the compact literal form of Deb822/Packed.v (a tree of strings
     packed into primitive integers; a literal that does not decode fails [agree]). *)
 From Coq Require Import Uint63 String.
-From Verif Require Import Lib.Base Lib.Dec Lib.PyStr Gen.DebConsts Deb822.Packed Deb.Model Deb.Spec.
-
-(** What the harness put into an ar member: raw bytes (debian-binary, junk), or a
-    tar archive given by its listing (name as stored, content of a regular file or
-    [None] for a directory), written with Python's tarfile and then compressed.
-    The compression leaves no trace here: tarfile's 'r:*' does not look at names. *)
-Inductive payload :=
-| PRaw (b : str)
-| PTar (v : tarview).
+From Verif Require Import Lib.Base Lib.Dec Lib.PyStr Gen.DebConsts Deb822.Packed Deb.Model Deb.Spec Deb.Payload.
 
 Record expect := mkExp {
   e_fields : pairs;
@@ -94,16 +86,29 @@ Definition t_kase (t : tree) : option kase :=
   | _ => None
   end.
 
+(** [Packed.parse_syms] with linear-time reversals ([List.rev] is quadratic, and a
+    case may carry a 14 kB file as one atom) *)
+Fixpoint parse_syms_fast (l : list N) (cur : list N) (stack : list (list tree)) : option tree :=
+  match l with
+  | [] => match stack, cur with [[t]], [] => Some t | _, _ => None end
+  | c :: l' =>
+      if (c =? 1)%N then parse_syms_fast l' [] ([] :: stack)
+      else if (c =? 2)%N then
+        match stack with
+        | top :: next :: rest => parse_syms_fast l' [] ((Node (rev_append top []) :: next) :: rest)
+        | _ => None
+        end
+      else if (c =? 3)%N then
+        match stack with
+        | top :: rest => parse_syms_fast l' [] ((Atom (unesc (rev_append cur [])) :: top) :: rest)
+        | [] => None
+        end
+      else parse_syms_fast l' (c :: cur) stack
+  end.
+
 Definition case := option kase.
 Definition pc (xs : list int) : case :=
-  match parse_tree xs with Some t => t_kase t | None => None end.
-
-(** * the model's instance: payloads as the harness describes them *)
-(** [read()] of a member; a tar member's bytes are not written into the case (the
-    harness never makes debian-binary a tar archive) *)
-Definition pl_bytes (p : payload) : str := match p with PRaw b => b | PTar _ => [] end.
-(** tarfile.open on raw junk fails (the harness's raw payloads are never tar archives) *)
-Definition pl_open (p : payload) : option tarview := match p with PRaw _ => None | PTar v => Some v end.
+  match parse_syms_fast (unpack xs) [] [[]] with Some t => t_kase t | None => None end.
 
 Definition pairs_eqb : pairs -> pairs -> bool := list_eqb (pair_eqb str_eqb str_eqb).
 
